@@ -11,6 +11,12 @@ exact identity on the code of the mechanism the property names:
               cascade (jb = jc = 0, l = ja = J, s = 0) the factor is <0 0;0 0|0 0><J 0;0 0|J 0> (both 1 by C12's table proof)
   F-barrier   with the default options the barrier part for orbital momentum l is q^l B'_l(q, q0, d) with
               B'_l^2 = |theta_l(i q0 d)|^2 / |theta_l(i q d)|^2  (l = 0..4; get_barrier_factor and get_barrier_factor2)
+  F-decay     HelicityDecay.get_amp translated as a whole (couplings g symbolic, exact Clebsch-Gordan values):
+              spin-0 parent -> R(J) + spinless:  amp[0][lambda][0] = delta_{lambda,0} (-1)^J g q^J B'_J(q, q0, d)
+              R(J) -> two spinless:              amp[lambda][0][0] = g' p^J B'_J(p, p0, d) conj D^J_{lambda,0}(phi, theta, 0),
+                                                 which is g' p^J B'_J P_J(cos theta) at lambda = 0            (J = 0..3)
+              so the two vertices of a chain carry exactly the factors (-1)^J, q^J B_J(q), p^J B_J(p), P_J(cos theta) of the
+              closed form; their contraction over lambda and the product with the propagator are not decided
   F-angular   d^J_00(theta) = P_J(cos theta) (J = 0..4) and the gathered D entry for lambda_b = lambda_c = 0 is
               conj D^J_{lambda_a,0}  (shared with C12: E6-wigner / E6-gather)
   F-lineshape BWR(m) = 1/(m0^2 - m^2 - i m0 Gamma(m)), Gamma = g0 (q/q0)^(2L+1) (m0/m) B'_L^2  (shared with C15: E6-bw)
@@ -37,6 +43,7 @@ def run(repo, chk, tier):
     chk.info("not decided: the end-to-end assembly of the amplitude (einsum over helicities, sum over chains), the sign (-1)^J that the angle conventions induce, identical-particle symmetrisation")
     cg_matrix(repo, chk)
     barrier(repo, chk)
+    decay_amplitudes(repo, chk)
     # angular and line-shape conventions: the obligations are those of C12 / C15, evaluated here for the spins the
     # closed form quantifies over (J, L = 0..4)
     from .c12_wigner import check_gather, check_wigner
@@ -145,3 +152,96 @@ def barrier(repo, chk):
             chk.oblige("F-barrier", "%s, l=%s: (barrier)^2 == q^(2l) |theta_l(i q0 d)|^2/|theta_l(i q d)|^2, and positive" % (name, l), ok and pos)
             if not (ok and pos):
                 chk.violation("F-barrier", fn.key, "l=%s" % l, "barrier factor for l=%s is %s, the closed form requires q^l B'_l(q,q0,d): %s" % (l, got, detail), file=CORE, line=fn.lineno)
+
+
+def decay_amplitudes(repo, chk):
+    chk.rule("F-decay", "HelicityDecay.get_amp, translated as a whole with exact CG values: spin-0 parent -> R(J) + spinless gives delta_{lambda,0} (-1)^J g q^J B'_J(q); R(J) -> two spinless gives g' p^J B'_J(p) conj D^J_{lambda,0}(phi,theta,0) (= g' p^J B'_J P_J(cos theta) at lambda = 0); J = 0..3")
+    from fractions import Fraction
+
+    from ..sym import PyFunc
+    from .c12 import cg_sq
+    from .c12_wigner import wigner_d
+    from .c15_kernels import BWF, ref_poly
+
+    cls = repo.cls(CORE + "::HelicityDecay")
+    fn = cls.methods["get_amp"]
+    cgf = repo.fn("tf_pwa/cg.py::cg_coef")
+    TH, AL = sp.symbols("TH AL", real=True)
+    S, C = sp.symbols("S C", positive=True)
+    q, q0, d, M = sp.symbols("q q0 d M", positive=True)
+
+    def cg_hook(tr, args, kwargs, n):
+        vals = dict(zip(cgf.params, args))
+        vals.update(kwargs)
+        j1, m1, j2, m2, J, Mz = [Fraction(str(sp.nsimplify(vals[k]))) for k in ("jb", "mb", "jc", "mc", "ja", "ma")]
+        sign, sq = cg_sq(j1, m1, j2, m2, J, Mz)
+        return sp.Integer(0) if sign == 0 else sign * sp.sqrt(sp.Rational(sq.numerator, sq.denominator))
+
+    def trig(kind):
+        def f(tr, a):
+            if sp.simplify(a - TH / 2) == 0:
+                return C if kind == "cos" else S
+            return sp.cos(a) if kind == "cos" else sp.sin(a)
+        return f
+
+    def coeff_hook(tr, args, kwargs, n):
+        L = int(args[0])
+        zz = sp.Symbol("zz__")
+        p = sp.Poly(ref_poly(L, zz), zz)
+        return [p.coeff_monomial(zz ** (L - i)) for i in range(L + 1)]
+
+    hooks = {
+        cgf.key: cg_hook, "concrete_zeros": True, "stack_as_array": True, "unary:cos": trig("cos"), "unary:sin": trig("sin"),
+        BWF + "get_bprime_coeff": coeff_hook, "allow_shape": True, "allow_attr_store": True,
+        HD + "get_relative_momentum2": lambda tr, args, kwargs, n: (q ** 2 if (args[2] if len(args) > 2 else kwargs.get("from_data", False)) else q0 ** 2),
+        "builtin.isinstance": lambda tr, args, kwargs, n: isinstance(args[0], int) or bool(getattr(args[0], "is_Integer", False)),
+    }
+    defaults = {"helicity_inner_full": False, "has_barrier_factor": True, "barrier_factor_mass": False, "has_ql": True, "has_bprime": True, "barrier_factor_norm": False,
+                "force_min_l": False, "no_q0": False, "allow_cc": True, "aligned": False, "mask_factor": False, "ls_index": None, "d": d}
+    g = sp.Symbol("g")
+    zero = sp.Integer(0)
+
+    def amp(ja, jb, jc, ls):
+        core = SelfObj(None, {"J": ja, "spins": spins(ja)})
+        b = SelfObj(None, {"J": jb, "spins": spins(jb)})
+        c = SelfObj(None, {"J": jc, "spins": spins(jc)})
+        attrs = dict(defaults)
+        attrs.update({"core": core, "outs": [b, c], "ls_list": ls, "g_ls": PyFunc(lambda: [g])})
+        tr = Translator(repo, hooks=hooks, max_depth=8)
+        data = {b: {"ang": {"alpha": AL, "beta": TH, "gamma": zero}}}
+        try:
+            out = tr.call_fn(fn, [data, {core: {"m": M}}], self_obj=SelfObj(cls, attrs))
+        except Unmodelled as e:
+            raise AnalysisError("HelicityDecay.get_amp not translatable for (ja,jb,jc)=(%s,%s,%s): %s" % (ja, jb, jc, e))
+        if getattr(out, "shape", None) != (1, len(spins(ja)), len(spins(jb)), len(spins(jc))):
+            raise AnalysisError("get_amp returned shape %s" % (getattr(out, "shape", None),))
+        return out
+
+    def ob(text, a, b, construct):
+        ok, detail = equal(sp.sympify(a), sp.sympify(b))
+        if ok is None:
+            raise AnalysisError("E6 normaliser too weak for %s: %s" % (text, detail))
+        chk.oblige("F-decay", text, ok)
+        if not ok:
+            chk.violation("F-decay", fn.key, construct, "%s does not hold: code %s, closed form %s" % (text, a, b), file=CORE, line=fn.lineno)
+
+    for J in range(0, 4):
+        Ji = sp.Integer(J)
+        bar = q ** J * sp.sqrt(ref_poly(J, (q0 * d) ** 2) / ref_poly(J, (q * d) ** 2))
+        # (i) spin-0 parent -> R(J) + spinless
+        out = amp(zero, Ji, zero, ((Ji, Ji),))
+        for ib, lam in enumerate(spins(Ji)):
+            want = (-1) ** J * g * bar if lam == 0 else zero
+            ob("J=%d, parent(0) -> R(J) + spinless: amp[0][lambda=%s][0] == %s" % (J, lam, "(-1)^J g q^J B'_J(q)" if lam == 0 else "0"), out[0][0][ib][0], want, "top:J=%d:lambda=%s" % (J, lam))
+        # (ii) R(J) -> two spinless
+        out = amp(Ji, zero, zero, ((Ji, zero),))
+        for ia, lam in enumerate(spins(Ji)):
+            want = g * bar * sp.exp(sp.I * lam * AL) * wigner_d(2 * J, ia, J, C, S)
+            ob("J=%d, R(J) -> two spinless: amp[lambda=%s][0][0] == g p^J B'_J(p) conj D^J_{lambda,0}(phi,theta,0)" % (J, lam), out[0][ia][0][0], want, "res:J=%d:lambda=%s" % (J, lam))
+        x = sp.Symbol("x")
+        leg = sp.legendre(J, x).subs(x, C ** 2 - S ** 2)
+        got0 = sp.sympify(out[0][J][0][0])
+        ok = sp.expand((got0 - g * bar * leg).subs(S, sp.sqrt(1 - C ** 2))) == 0 or equal(got0.subs(S, sp.sqrt(1 - C ** 2)), (g * bar * leg).subs(S, sp.sqrt(1 - C ** 2)))[0] is True
+        chk.oblige("F-decay", "J=%d: the lambda = 0 amplitude of R(J) -> two spinless is g p^J B'_J(p) P_J(cos theta)" % J, ok)
+        if not ok:
+            chk.violation("F-decay", fn.key, "legendre:J=%d" % J, "lambda=0 amplitude %s is not g p^J B'_J P_J(cos theta)" % got0, file=CORE, line=fn.lineno)
